@@ -254,8 +254,12 @@ pub fn run_c18(tier: &str) -> i32 {
         for (mi, _) in MODES.iter().enumerate() {
             for &th in &thread_menu {
                 for rec in [false, true] {
-                    cli_jobs.push((ci, mi, th, rec));
+                    cli_jobs.push((ci, mi, th, rec, 0usize));
                 }
+            }
+            // the progress output (normal and verbose), also with stderr closed: printing must never matter
+            for verb in 1..=4usize {
+                cli_jobs.push((ci, mi, 4, true, verb));
             }
         }
     }
@@ -271,7 +275,7 @@ pub fn run_c18(tier: &str) -> i32 {
                 rep.note_cap("wall-clock cap in the production-binary pass");
                 break;
             }
-            let (ci, mi, th, rec) = cli_jobs[i];
+            let (ci, mi, th, rec, verb) = cli_jobs[i];
             env.setup(&core[ci].1);
             let ths = th.to_string();
             let mut args: Vec<&str> = match mi {
@@ -280,11 +284,27 @@ pub fn run_c18(tier: &str) -> i32 {
                 2 => vec!["verify"],
                 _ => vec!["clean"],
             };
-            args.extend(["-q", "-j", &ths]);
+            match verb {
+                0 => args.push("-q"),
+                2 | 4 => args.push("-v"),
+                _ => {}
+            }
+            args.extend(["-j", &ths]);
             if rec {
                 args.push("-r");
             }
-            let (code, to) = run_cli(&env.base(), &args, &[], 20.0);
+            let (code, to) = if verb >= 3 {
+                // stderr closed: every write of the progress reporter fails
+                let mut c = std::process::Command::new("/bin/sh");
+                let cmdline = format!("exec {} {} 2>&-", production_cli().display(), args.join(" "));
+                c.arg("-c").arg(cmdline).current_dir(env.base()).env_remove("TXTPP_FILE").stdin(std::process::Stdio::null()).stdout(std::process::Stdio::null());
+                match status_with_timeout(&mut c, 20.0) {
+                    (Some(st), _) => (st.code().unwrap_or(-1), false),
+                    (None, t) => (-9, t),
+                }
+            } else {
+                run_cli(&env.base(), &args, &[], 20.0)
+            };
             rep.tv(1);
             rep.tr(1);
             if to || (code != 0 && code != 1) {
